@@ -59,6 +59,64 @@ end Mab
 namespace Mab
 variable {α : Type} [DecidableEq α]
 
+/-- configuration invariants along any history: no binarizer appears, the variant flag and (for
+    context-free policies) `num_features` never change -/
+structure CfgInv (s : LP α) (kind : Kind) (k1 : Bool) : Prop where
+  binz : s.binz = none
+  ctxBin : s.ctxBin = false
+  k1 : s.k1fixed = k1
+  nf : kind.isLinear = false → s.numFeatures = none
+
+theorem cfgInv_step (s : LP α) (kind : Kind) (k1 : Bool) (hk : s.kind = kind) (op : LPOp α)
+    (h : CfgInv s kind k1) : CfgInv (s.stepOp op) kind k1 := by
+  cases op with
+  | fit b w =>
+    obtain ⟨c1, c2, c3, c4⟩ := fit_config s b w
+    exact ⟨by simp only [LP.stepOp]; rw [c1]; exact h.binz, by simp only [LP.stepOp]; rw [c2]; exact h.ctxBin,
+           by simp only [LP.stepOp]; rw [c3]; exact h.k1,
+           fun hl => by simp only [LP.stepOp]; rw [c4 (hk ▸ hl)]; exact h.nf hl⟩
+  | partialFit b =>
+    obtain ⟨c1, c2, c3, c4⟩ := partialFit_config s b
+    exact ⟨by simp only [LP.stepOp]; rw [c1]; exact h.binz, by simp only [LP.stepOp]; rw [c2]; exact h.ctxBin,
+           by simp only [LP.stepOp]; rw [c3]; exact h.k1,
+           fun hl => by simp only [LP.stepOp]; rw [c4]; exact h.nf hl⟩
+  | addArm a =>
+    simp only [LP.stepOp]
+    split
+    · exact h
+    · obtain ⟨st', e⟩ := expOp_onlySt (s.insertArm a none)
+      unfold LP.addArm
+      rw [e]
+      refine ⟨?_, h.ctxBin, h.k1, h.nf⟩
+      show (s.insertArm a none).binz = none
+      unfold LP.insertArm; cases s.kind <;> exact h.binz
+  | removeArm a =>
+    simp only [LP.stepOp]
+    split
+    · unfold LP.removeArm
+      obtain ⟨st1, e1⟩ := expOp_onlySt (s.dropArm a)
+      rw [e1]
+      obtain ⟨st2, e2⟩ := normalize_onlySt ({ s.dropArm a with st := st1 } : LP α)
+      rw [e2]
+      exact ⟨h.binz, h.ctxBin, h.k1, h.nf⟩
+    · exact h
+
+/-- the refinement together with the configuration invariants -/
+theorem cf_refines_log_aux (kind : Kind) (arms : List α) (k1 : Bool) (hn : arms.Nodup) (ops : List (LPOp α)) :
+    Ref ((LP.init kind arms none k1).run ops) ((Spec.init arms).run ops) ∧
+    ((LP.init kind arms none k1).run ops).binz = none ∧ ((LP.init kind arms none k1).run ops).ctxBin = false ∧
+    ((LP.init kind arms none k1).run ops).k1fixed = k1 ∧
+    (kind.isLinear = false → ((LP.init kind arms none k1).run ops).numFeatures = none) := by
+  have key : ∀ (ops : List (LPOp α)) (s : LP α), s.kind = kind → CfgInv s kind k1 → CfgInv (s.run ops) kind k1 := by
+    intro ops
+    induction ops with
+    | nil => intro s _ h; exact h
+    | cons op ops ih =>
+      intro s hk h
+      exact ih _ (by rw [stepOp_kind]; exact hk) (cfgInv_step s kind k1 hk op h)
+  have c := key ops (LP.init kind arms none k1) rfl ⟨rfl, rfl, rfl, fun _ => rfl⟩
+  exact ⟨cf_refines_log kind arms k1 hn ops, c.binz, c.ctxBin, c.k1, c.nf⟩
+
 /-! ### the documented statistics, written out -/
 
 def lsum (log : List (Rat × Vec)) : Rat := rsum log
